@@ -1,7 +1,7 @@
 (* C01 — no fork between well-formed histories: the Alh of transaction k commits to the whole
    prefix 1..k, so a verified advance from a trusted state of one history to a state of another
    history implies that both histories agree up to the trusted transaction. *)
-From V Require Import Proofs.History Proofs.Binding Proofs.Linear Proofs.Sound Merkle.Sound.
+From V Require Import Proofs.History Proofs.Gen Proofs.Binding Proofs.Linear Proofs.Sound Merkle.Sound.
 From Coq Require Import ZifyN ZifyNat ZifyBool.
 
 Section Fork.
